@@ -842,6 +842,9 @@ class Interp:
                 and isinstance(args[0], f.__objclass__):
             # unbound C-level container method: dict.setdefault(self, key, default)
             return self.dict_native(args[0], f.__name__, args[1:], kwargs, lambda *a, **k: f(args[0], *a, **k))
+        if getattr(f, "__module__", None) == "_operator" and all(isinstance(a, (SInt, SBool, core.SReal, int, float, bool)) for a in args):
+            # operator.add / iadd / ... on numeric proxies: plain dunder dispatch
+            return f(*args, **kwargs)
         if recv is None or isinstance(recv, types.ModuleType):
             nm = getattr(f, "__name__", "")
             if f in (builtins.print, builtins.id, builtins.enumerate, builtins.zip, builtins.reversed, builtins.next, builtins.getattr, builtins.setattr, builtins.hasattr, builtins.callable, builtins.map, builtins.filter):
